@@ -973,6 +973,15 @@ impl Engine for C13 {
             let b = if eq { a.clone() } else { Blob { seed: w.next(), len: w.range(20, 120) as u32 } };
             items.push(Item { name: refmerge::MANIFEST.into(), c_pos: 0, s_pos: 0, kind: ItemKind::Res { client: c.then_some(a), server: sv.then_some(b) } });
         }
+        // a resource whose name equals the manifest's up to case (an ordinary entry: only the exact name is the manifest) -
+        // missed seeded change C13-18: the jar writer matched the manifest case-insensitively and dropped the second match
+        if w.chance(8) {
+            let name = w.pick(&["meta-inf/manifest.mf", "META-INF/Manifest.mf", "META-INF/manifest.MF"]).to_string();
+            let (c, sv, eq) = gen_sides(&mut w);
+            let a = gen_blob(&mut w, false);
+            let b = if eq { a.clone() } else { gen_blob(&mut w, false) };
+            items.push(Item { name, c_pos: pos(&mut w), s_pos: pos(&mut w), kind: ItemKind::Res { client: c.then_some(a), server: sv.then_some(b) } });
+        }
         if w.chance(45) {
             for _ in 0..w.range(1, 3) {
                 let name = w.pick(&SIG_NAMES).to_string();
